@@ -22,6 +22,9 @@ type Fault struct {
 	Val  int    `json:"val,omitempty"`
 	Data Hex    `json:"data,omitempty"`
 	With int    `json:"with,omitempty"` // second datagram (splice)
+	// extend_payload: tail = encoding of Pl, then Edits (offset,value pairs), cut to Len, length field repaired if Val != 0
+	Pl    *PayloadSpec `json:"pl,omitempty"`
+	Edits []int        `json:"edits,omitempty"`
 }
 
 type Step struct {
